@@ -3041,7 +3041,8 @@ impl StrName {
                         let next = ps.next()?;
                         match next {
                             ';' => break,
-                            'a'..='z' | 'A'..='Z' => {}
+                            // names such as `frac12` or `sup2` contain digits
+                            'a'..='z' | 'A'..='Z' | '0'..='9' => {}
                             _ => {
                                 return None;
                             }
